@@ -4,6 +4,9 @@ SPEC = {
         {"name": "lookup", "pkg": "./internal/filtering/hashprefix/", "run": "^TestVerifC19$",
          "harness": ["filtering__hashprefix/c19_*.go"], "synctest": True,
          "timeout_quick": 600, "timeout_thorough": 3000},
+        {"name": "freshness", "pkg": "./internal/filtering/hashprefix/", "run": "^TestVerifC19Fresh$",
+         "harness": ["filtering__hashprefix/c19_*.go"], "synctest": True,
+         "timeout_quick": 600, "timeout_thorough": 3000},
         {"name": "concurrent", "pkg": "./internal/filtering/hashprefix/", "run": "^TestVerifC19Concurrent$",
          "harness": ["filtering__hashprefix/c19_*.go"], "synctest": True, "race": True,
          "timeout_quick": 600, "timeout_thorough": 3000},
@@ -14,7 +17,7 @@ SPEC = {
 }
 
 CLAIM = {
-    "text": "Seeded histories of 5-40 Check calls and clock advances (virtual time) share one hashprefix.Checker (cache 10 B .. unlimited, cache time 5 s .. 1 h) wired to an in-memory lookup service that logs every request and answers from a database of full SHA-256 hashes (the name, parents, siblings, sub-domains that must not count, other names sharing a 2-byte prefix taken from a pool of 200k hashed names, optional malformed TXT strings). Every request is compared with an independent enumeration of the allowed sub-domains (last four labels, ICANN suffix dropped, fixed suffix table): only 4-hex-digit labels that are prefixes of those, followed by the service suffix; subsets accepted, supersets not. Every verdict, whether answered from the cache or not, is compared with a fresh evaluation of the database in force; the database is replaced only at instants where every cache entry has expired. A concurrent part (go test -race, virtual latency) lets 3-18 goroutines check distinct names on one Checker at once, among them groups of different names that produce the same question (same 2-byte prefixes for name and parents) of which only some are listed, with fresh, tiny and warm caches; every verdict must equal the database and every request must consist of allowed prefixes of a name under check. Another part repeats the request and verdict oracle through DNSFilter.CheckHost with host names in mixed letter case and the safe-browsing and parental-control services enabled or disabled per query. Exploration: held on the cases observed, which the evidence counts.",
+    "text": "Seeded histories of 5-40 Check calls and clock advances (virtual time) share one hashprefix.Checker (cache 10 B .. unlimited, cache time 5 s .. 1 h) wired to an in-memory lookup service that logs every request and answers from a database of full SHA-256 hashes (the name, parents, siblings, sub-domains that must not count, other names sharing a 2-byte prefix taken from a pool of 200k hashed names, optional malformed TXT strings). Every request is compared with an independent enumeration of the allowed sub-domains (last four labels, ICANN suffix dropped, fixed suffix table): only 4-hex-digit labels that are prefixes of those, followed by the service suffix; subsets accepted, supersets not. Every verdict, whether answered from the cache or not, is compared with a fresh evaluation of the database in force; the database is replaced only at instants where every cache entry has expired. A freshness part lets the database change (names listed and delisted) at arbitrary virtual instants while the same name and names sharing its prefixes are re-checked over several cache lifetimes: a verdict must be explained by listings not older than the cache time (+2 s), and a clean verdict needs a request for every allowed prefix within that time. A concurrent part (go test -race, virtual latency) lets 3-18 goroutines check distinct names on one Checker at once, among them groups of different names that produce the same question (same 2-byte prefixes for name and parents) of which only some are listed, with fresh, tiny and warm caches; every verdict must equal the database and every request must consist of allowed prefixes of a name under check. Another part repeats the request and verdict oracle through DNSFilter.CheckHost with host names in mixed letter case and the safe-browsing and parental-control services enabled or disabled per query. Exploration: held on the cases observed, which the evidence counts.",
     "note": "Trusted: crypto/sha256, and golang.org/x/net/publicsuffix only to discard generated names on which the fixed table and the list disagree. Not asserted: what an upstream error yields; whether the ICANN suffix below a private suffix (io of x.github.io) or a bare public suffix is hashed (counted as unspecified).",
     "technique": "runtime monitor: reference-model oracle over seeded histories on virtual time (exported API + in-memory upstream)",
 }
